@@ -126,3 +126,14 @@ Definition run_c11_bfs (s : sx) : sx :=
       end
   | _ => bad_request
   end.
+
+(* [nodes G T] -> spanning_treeb only (for trees too large for the brute-force optimality checker) *)
+Definition run_c11_span (s : sx) : sx :=
+  match s with
+  | SL [sn; sg; st] =>
+      match sx_list sx_nat sn, sx_list (sx_pair sx_edge sx_Qc) sg, sx_list sx_edge st with
+      | Some ns, Some G, Some T => sx_ok (of_bool (spanning_treeb ns G T))
+      | _, _, _ => bad_request
+      end
+  | _ => bad_request
+  end.
